@@ -80,6 +80,14 @@ static void client (void *arg) {
 				r = nsync_counter_add (S.c, o->a);
 				if (o->a != 0 && (long) r != S.expect[t]) rt_violation ("O-lin", "nsync_counter_add(%d) returned %u but its own update left the counter at %ld", o->a, r, S.expect[t]);
 				S.ret[t] = (int) r;
+			} else if (!strcmp (o->name, "new")) {
+				nsync_counter c2;
+				if (o->x == 1) rt_fail_malloc_at (1);
+				c2 = nsync_counter_new ((uint32_t) o->a);
+				rt_fail_malloc_at (0);
+				if (o->x == 1 && c2 != NULL) rt_violation ("O-crash", "nsync_counter_new returned a counter although its allocation failed");
+				if (o->x != 1 && (c2 == NULL || *(volatile uint32_t *) &c2->value != (uint32_t) o->a)) rt_violation ("O-crash", "nsync_counter_new(%d) failed or has the wrong value", o->a);
+				S.ret[t] = c2 != NULL;
 			} else if (!strcmp (o->name, "value")) {
 				int h0 = S.nhist, i, ok = 0; uint32_t r;
 				r = nsync_counter_value (S.c);
